@@ -45,14 +45,18 @@ func childMain(c *vkit.Ctx) {
 		runtime.GOMAXPROCS(sc.Procs)
 	}
 	c.LogCase(sc.ID + ":" + sc.Family)
-	obs, err := e2e.Run(sc, c.WorkDir(), e2e.Hooks{OnStuck: func(gen int, where string) {
+	obs, err, attempts, expired := e2e.RunStable(sc, c.WorkDir(), e2e.Hooks{OnStuck: func(gen int, where string) {
 		buf := make([]byte, 1<<20)
 		n := runtime.Stack(buf, true)
 		fr := vkit.StuckInAgent(string(buf[:n]))
 		c.Violation("stop-stuck", fmt.Sprintf("gen %d: %s did not return; agent goroutines parked in %s", gen, where, strings.Join(fr, ", ")),
 			map[string]any{"scenario": sc, "goroutines": string(buf[:min(n, 20000)])})
-	}})
+	}}, func(o *e2e.Obs) bool { fs, _ := e2e.JudgeAtLeastOnce(o); return len(fs) > 0 })
 	c.Eval(1)
+	if attempts > 1 {
+		c.Event("attempts_set_aside_after_safety_timeout_expiry", attempts-1)
+		c.Sample(map[string]any{"scenario": sc.ID, "family": sc.Family, "set_aside": expired})
+	}
 	if err != nil && obs == nil {
 		c.Inconclusive("scenario " + sc.ID + " could not run: " + err.Error())
 		return
